@@ -161,6 +161,12 @@ func cmdCheck(args []string) {
 			if (o.Res.Status == "timeout" || o.Res.Status == "unknown") && len(o.Splits) > 0 {
 				o.Res = solveSplit(o, q, qdir, timeout, *seed)
 			}
+			if o.Res.Status == "sat" && !o.ExpectSat && !thorough {
+				// a counterexample must not be contradicted by another solver
+				if chk := solve(o.QueryFile, timeout, *seed, true); chk.Status == "disagree" {
+					o.Res = chk
+				}
+			}
 			if o.Res.Status == "sat" && !o.ExpectSat {
 				// complete the model over the whole path (preconditions included)
 				fq := writeQuery(qdir, o.Name+"_full", o.Script.RenderFull(o.N, o.Hyp, o.Goal, gv))
@@ -273,6 +279,10 @@ func buildReport(p *Prog, rr *RunResult, obls []*Obligation, prop, tier string, 
 		if o.Res.Status == "unsat" {
 			cov.Discharged++
 			cov.ByBackend[o.Res.Backend]++
+			continue
+		}
+		if o.Res.Status == "disagree" {
+			rep.EngineError = "solvers disagree on " + o.Name + " (" + fmt.Sprint(o.Res.All) + ")"
 			continue
 		}
 		// failed obligation
